@@ -78,6 +78,9 @@ MODELS = {
     '@vp_tid': dict(c='vp_tid', kind='pure'),
     '@vp_g': dict(c='vp_g', kind='pure'), '@vp_gset': dict(c='vp_gset', kind='pure'), '@vp_gadd': dict(c='vp_gadd', kind='pure'),
     '@vp_win_enter': dict(c='vp_win_enter', kind='pure'), '@vp_win_exit': dict(c='vp_win_exit', kind='pure'),
+    '@vp_win_readers': dict(c='vp_win_readers', kind='pure'), '@vp_intent_shared': dict(c='vp_intent_shared', kind='pure'), '@vp_intent_excl': dict(c='vp_intent_excl', kind='pure'),
+    '@vp_hist_begin': dict(c='vp_hist_begin', kind='pure'), '@vp_hist_end': dict(c='vp_hist_end', kind='pure'),
+    '@vp_lin_check': dict(c='vp_lin_check', kind='pure'),
     '@vp_cover': dict(c='vp_cover', kind='pure'),
     '@vp_log': dict(c='vp_log', kind='pure'),
     '@vp_throw_now': dict(c='vp_throw_now', kind='pure'),
@@ -482,6 +485,9 @@ class FuncEmitter:
                 s.S(f"{D} = {G.mask(ty, f'({ct})((({B}) < {n}) ? (({A}) {cop} ({B})) : 0)')};")
             elif op == 'ashr':
                 s.S(f"{D} = ({ct})({G.sx(ty, A)} >> ({B}));")
+            elif op == 'sdiv' and y == ('int', 1000000000) and M.resolve(ty).n == 64:
+                # libstdc++ chrono -> timespec conversion; see vpmodels.h VP_DIV1E9 and DESIGN.md section 4
+                s.S(f"{D} = ({ct})VP_DIV1E9((int64_t)({A}));")
             elif op in ('sdiv', 'srem'):
                 cop = '/' if op == 'sdiv' else '%'
                 s.S(f"{D} = ({ct})({G.sx(ty, A)} {cop} {G.sx(ty, B)});")
